@@ -302,7 +302,8 @@ func verifGemtext(nodes []verifNode, c *verifCounter) (string, bool) {
 			if !ok {
 				return "", false
 			}
-			lines = append(lines, "```", text+" "+strings.Repeat("=", 90), "```")
+			/* a line that looks like a link, quoted inside the block: shown as it is, no link, no number */
+			lines = append(lines, "```", "=> https://decoy.example/quoted quoted", text+" "+strings.Repeat("=", 90), "=>https://decoy.example/second", "```")
 		case "hr":
 			/* a preformatted block whose closing fence is missing */
 			if len(lines) > 0 && len(nodes) > 0 && &n == &nodes[len(nodes)-1] {
@@ -329,7 +330,9 @@ func verifPlain(nodes []verifNode, c *verifCounter) (string, bool) {
 		case "img":
 			t := c.target()
 			c.token()
-			words = append(words, t)
+			/* addresses as they stand in running text: in brackets, at the end of a sentence, before a comma; what is
+			   underlined and numbered is the label, and that is what the number has to open */
+			words = append(words, t+[]string{"", "_(x)", ".", ",", "?", ";p=1)", "!", ":", "/a_(b)_c"}[c.link%9])
 		case "long":
 			words = append(words, strings.Repeat("w", 150))
 		case "br":
@@ -620,6 +623,12 @@ func TestVerifMarkup(t *testing.T) {
 	rng := verifkit.Rand()
 	defer verifNarrow(out, rng, in.Random)
 	docs := in.Docs
+	/* quoted (preformatted) material between links - in every markup that can say it */
+	tx := func() verifNode { return verifNode{T: "txt"} }
+	lk := func() verifNode { return verifNode{T: "a", Kids: []verifNode{tx()}} }
+	pre := func() verifNode { return verifNode{T: "pre", Kids: []verifNode{tx()}} }
+	docs = append(docs, []verifNode{tx(), pre(), {T: "img"}, lk()}, []verifNode{pre(), lk(), pre(), {T: "img"}, tx()}, []verifNode{lk(), pre(), lk()},
+		[]verifNode{{T: "img"}, pre(), pre(), {T: "img"}, lk(), tx()}, []verifNode{pre(), {T: "img"}})
 	for i := 0; i < in.Random; i++ {
 		if i%8 == 0 {
 			/* many links: two-digit numbers */
@@ -655,6 +664,22 @@ func TestVerifMarkup(t *testing.T) {
 				post, err = NewPostFromObject(o, nil)
 				if err != nil {
 					panic(err)
+				}
+				if real.markup == "plain" {
+					/* in plain text the label of a link is the stretch that is underlined: the number next to it opens that */
+					runs := verifUnderlinedRuns(post.String(4000))
+					expect = append([]verifMark{}, expect...)
+					for i, m := range expect {
+						if m.T != "lab" {
+							continue
+						}
+						for _, run := range runs {
+							if run == m.Target || (strings.HasPrefix(run, m.Target) && !strings.ContainsAny(run[len(m.Target):len(m.Target)+1], "0123456789")) {
+								expect[i].Target = run
+								break
+							}
+						}
+					}
 				}
 			})
 			if panicked {
@@ -759,4 +784,32 @@ func TestVerifMarkup(t *testing.T) {
 			}
 		}
 	}
+}
+
+/* the stretches of a rendering that are underlined */
+func verifUnderlinedRuns(rendered string) []string {
+	runs := []string{}
+	var cur strings.Builder
+	for _, c := range verifkit.Cells(rendered) {
+		underlined := false
+		for _, sgr := range c.S {
+			for _, p := range strings.Split(sgr, ";") {
+				if p == "4" && !strings.HasPrefix(sgr, "38;") && !strings.HasPrefix(sgr, "48;") {
+					underlined = true
+				}
+			}
+		}
+		if underlined && c.K == "g" {
+			cur.WriteString(c.C)
+			continue
+		}
+		if cur.Len() > 0 {
+			runs = append(runs, cur.String())
+			cur.Reset()
+		}
+	}
+	if cur.Len() > 0 {
+		runs = append(runs, cur.String())
+	}
+	return runs
 }
